@@ -95,7 +95,7 @@ func (sh *shrinker) pass(get func() interface{}, set func(interface{})) bool {
 			if sh.expired() {
 				return progress
 			}
-			if k == "prop" {
+			if k == "prop" || k == "max_steps" {
 				continue
 			}
 			old := v[k]
